@@ -252,7 +252,7 @@ func (t *ImmutableTree) Iterate(fn func(key []byte, value []byte) bool) (bool, e
 			return true, nil
 		}
 	}
-	return false, nil
+	return false, itr.Error()
 }
 
 // Iterator returns an iterator over the immutable tree.
